@@ -15,9 +15,9 @@
                  origin; the rule-level names stay apart; generated names are unused)
      ren_sound   eval same_nm (renamed rule variables) (ren e) = eval same_id (rule variables) e        (no capture)
      refuted variants, by vm_compute: a `let` that binds inside its own initialiser (seed C08 round 5); the guard of a match
-     arm walked outside the arm's scope (the code as it is: finding match_guard_walked_outside_arm_scope); an expression-level
-     binder of the macro body above an identifier of the actual (the code as it is: finding
-     expression_binder_resolved_by_spelling). *)
+     arm walked outside the arm's scope (walk_before_fix: the code BEFORE fix e64116b, finding
+     match_guard_walked_outside_arm_scope, repaired); an expression-level binder of the macro body above an identifier of the
+     actual (the code as it is: finding expression_binder_resolved_by_spelling). *)
 From Coq Require Import List String ZArith Bool Arith Lia.
 Import ListNotations.
 Open Scope string_scope.
@@ -118,8 +118,9 @@ Fixpoint eval (same : ident -> ident -> bool) (en : env) (e : sx) : option Z :=
 
 Record walk_cfg := { let_binds_init : bool; guard_in_arm_scope : bool }.
 Definition rust_walk := {| let_binds_init := false; guard_in_arm_scope := true |}.     (* the scoping of Rust *)
-Definition real_walk := {| let_binds_init := false; guard_in_arm_scope := false |}.    (* syn_utils.rs as it is *)
-Definition seed_walk := {| let_binds_init := true; guard_in_arm_scope := false |}.     (* a let bound before its initialiser is walked *)
+Definition real_walk := {| let_binds_init := false; guard_in_arm_scope := true |}.     (* syn_utils.rs as it is (since fix e64116b) *)
+Definition walk_before_fix := {| let_binds_init := false; guard_in_arm_scope := false |}.   (* syn_utils.rs before e64116b: guards walked outside the arm's scope *)
+Definition seed_walk := {| let_binds_init := true; guard_in_arm_scope := true |}.      (* a let bound before its initialiser is walked *)
 
 (* var_mappings restricted by the span test: macro-originated local (spelling, origin) -> generated spelling *)
 Definition mapping := list (ident * string).
@@ -220,8 +221,8 @@ Fixpoint hyp (m : mapping) (dom : list ident) (bs : list ident) (e : sx) : bool 
   | SFor b bd body => fresh_b m b && hyp m dom bs bd && hyp m dom (b :: bs) body
   end.
 
-(* the extra hypothesis under which the walk of the code as it is (guards outside the arm's scope) agrees with Rust's
-   scoping: no guard mentions, under the spelling of its arm's binder, an identifier that the mapping renames *)
+(* history (the code before fix e64116b, walk_before_fix: guards outside the arm's scope; no theorem about the code as it is
+   needs this any more): the extra hypothesis under which that walk agrees with Rust's scoping: no guard mentions, under the spelling of its arm's binder, an identifier that the mapping renames *)
 Fixpoint occurs_mapped (m : mapping) (n : string) (e : sx) : bool :=
   match e with
   | SVar i => String.eqb (iname i) n && match mlook m i with Some _ => true | None => false end
@@ -439,10 +440,10 @@ Proof.
     intros x Hx; cbn [mem]; rewrite (Hb x Hx); reflexivity.
 Qed.
 
-(* the walk of the code as it is and the walk with Rust's scoping rename alike when guards_ok holds *)
-Lemma real_walk_agrees : forall m e bound, guards_ok m e = true -> ren real_walk m bound e = ren rust_walk m bound e.
+(* the walk of the code before fix e64116b and the walk with Rust's scoping rename alike when guards_ok holds *)
+Lemma before_fix_agrees : forall m e bound, guards_ok m e = true -> ren walk_before_fix m bound e = ren rust_walk m bound e.
 Proof.
-  intros m e; induction e; intros bound H; cbn [guards_ok] in H; cbn [ren real_walk rust_walk let_binds_init guard_in_arm_scope push];
+  intros m e; induction e; intros bound H; cbn [guards_ok] in H; cbn [ren walk_before_fix rust_walk let_binds_init guard_in_arm_scope push];
     repeat match goal with H : (_ && _) = true |- _ => apply andb_true_iff in H; destruct H end;
     try reflexivity.
   - rewrite IHe; auto.
@@ -458,11 +459,21 @@ Proof.
   - rewrite IHe1, IHe2; auto.
 Qed.
 
-(* the code as it is: no capture when, in addition, no guard mentions a renamed identifier under its arm binder's spelling *)
+(* the code as it is (since e64116b its walk IS Rust's scoping): no capture *)
 Theorem ren_sound_real : forall m outer e,
-  hyp m (map fst outer) [] e = true -> guards_ok m e = true ->
+  hyp m (map fst outer) [] e = true ->
   eval same_nm (ren_env m outer) (ren real_walk m [] e) = eval same_id outer e.
-Proof. intros m outer e H G. rewrite (real_walk_agrees m e [] G). apply ren_sound; exact H. Qed.
+Proof. exact ren_sound. Qed.
+
+Lemma real_walk_is_rust_scoping : forall m e bound, ren real_walk m bound e = ren rust_walk m bound e.
+Proof. reflexivity. Qed.
+
+(* history: the code before e64116b was free of capture only when, in addition, no guard mentioned a renamed identifier under
+   its arm binder's spelling *)
+Theorem ren_sound_before_fix : forall m outer e,
+  hyp m (map fst outer) [] e = true -> guards_ok m e = true ->
+  eval same_nm (ren_env m outer) (ren walk_before_fix m [] e) = eval same_id outer e.
+Proof. intros m outer e H G. rewrite (before_fix_agrees m e [] G). apply ren_sound; exact H. Qed.
 
 (* ren renames exactly the free occurrences (those the mapping knows), nothing else, and leaves the binders alone *)
 Lemma ren_occs : forall c m e bound,
@@ -544,24 +555,25 @@ Lemma shadow_example :
   /\ eval same_nm (ren_env w_map w_outer) (ren seed_walk w_map [] w_shadow) = Some 2%Z.
 Proof. vm_compute. repeat split; reflexivity. Qed.
 
-(* REFUTED variant: a let that binds inside its own initialiser (the hypotheses of ren_sound_real hold) *)
+(* REFUTED variant: a let that binds inside its own initialiser (the hypothesis of ren_sound_real holds) *)
 Lemma seed_walk_refuted : exists m outer e,
-  hyp m (map fst outer) [] e = true /\ guards_ok m e = true
-  /\ eval same_nm (ren_env m outer) (ren seed_walk m [] e) <> eval same_id outer e.
-Proof. exists w_map, w_outer, w_shadow. split; [reflexivity|]. split; [reflexivity|]. vm_compute. discriminate. Qed.
-
-(* the code as it is, without guards_ok: the guard's x is the arm's, the walk offers it to the renaming *)
-Lemma real_walk_guard_refuted : exists m outer e,
   hyp m (map fst outer) [] e = true
-  /\ eval same_nm (ren_env m outer) (ren rust_walk m [] e) = eval same_id outer e
-  /\ eval same_nm (ren_env m outer) (ren real_walk m [] e) <> eval same_id outer e.
+  /\ eval same_nm (ren_env m outer) (ren seed_walk m [] e) <> eval same_id outer e.
+Proof. exists w_map, w_outer, w_shadow. split; [reflexivity|]. vm_compute. discriminate. Qed.
+
+(* REFUTED variant, history: the code before e64116b without guards_ok — the guard's x is the arm's, that walk offered it to the
+   renaming; the code as it is gets the witness right *)
+Lemma before_fix_guard_refuted : exists m outer e,
+  hyp m (map fst outer) [] e = true
+  /\ eval same_nm (ren_env m outer) (ren real_walk m [] e) = eval same_id outer e
+  /\ eval same_nm (ren_env m outer) (ren walk_before_fix m [] e) <> eval same_id outer e.
 Proof. exists w_map, w_outer, w_guard. split; [reflexivity|]. split; [reflexivity|]. vm_compute. discriminate. Qed.
 
 (* without hyp: a binder written in the macro body above an identifier of the actual; no walk helps, the binders of
    expressions are not renamed *)
 Lemma expression_binder_captures_refuted : exists m outer e,
-  guards_ok m e = true /\ hyp m (map fst outer) [] e = false
-  /\ ren real_walk m [] e = e /\ ren rust_walk m [] e = e
+  hyp m (map fst outer) [] e = false
+  /\ ren real_walk m [] e = e /\ ren walk_before_fix m [] e = e
   /\ eval same_nm (ren_env m outer) e <> eval same_id outer e.
 Proof. exists w_map, w_outer, w_capture. repeat (split; [reflexivity|]). vm_compute. discriminate. Qed.
 
